@@ -73,15 +73,23 @@ def validate(ctx, paths, nshards, parallel=None):
         shards += ctx.shard(p, nshards)
     rs = ctx.tlc_trace_many(TRACE, shards, timeout=1500, parallel=parallel)
     n = 0
+    lift_kinds, outcomes = collections.Counter(), collections.Counter()
     for p in paths:
         with open(p) as f:
             for line in f:
                 if line.strip():
                     n += 1
+                    e = json.loads(line)
+                    if "ok" in e["lift"]:
+                        outcomes[e["arch"] + ":" + e.get("out", {}).get("k", "?")] += 1
+                    else:
+                        k = "err:" + e["lift"]["err"] if "err" in e["lift"] else "panic"
+                        lift_kinds[e["arch"] + ":" + k] += 1
                     if len(ctx.samples) < 3 and n % 997 == 5:
-                        e = json.loads(line)
                         ctx.samples.append({k: e[k] for k in ("arch", "addr", "words", "asm", "gpr", "win", "out") if k in e})
     ctx.traces += n
+    ctx.extra["lift_outcomes_not_ok"] = dict(lift_kinds)       # a `Sort` error here would be worth a look (none seen)
+    ctx.extra["run_outcomes"] = dict(outcomes)
     ctx.add_rejects(rs)
     return _stats(rs)
 
